@@ -106,26 +106,25 @@ OPS = [
 
 
 def _partial_iteration(doc, p):
-    """Loops over the document that are NOT run to the end: a peek, a break, an exception in the body, two interleaved loops."""
+    """Loops over the document that are NOT run to the end: a peek, a break, an exception in the body, two interleaved iterators.
+    The iteration is left abandoned: what a LATER call sees is the subject (C14.a repeats the operation on the same document,
+    C14.b runs every observer after it)."""
     if p == 0:
-        return (next(iter(doc)), list(doc))
+        return next(iter(doc))
     if p == 1:
         seen = []
         for m in doc:
             seen.append(m)
-            if len(seen) == 2:
-                break
-        return (seen, list(doc))
+            break
+        return seen
     if p == 2:
         try:
             for m in doc:
                 raise KeyError(m)
-        except KeyError:
-            pass
-        return list(doc)
+        except KeyError as e:
+            return e.args[0]
     a, b = iter(doc), iter(doc)
-    first = (next(a), next(b))
-    return (first, list(a), list(b), list(doc))
+    return (next(a), next(b))
 
 
 def _exporter_reuse(doc, p):
@@ -292,9 +291,9 @@ UNTRACE = [('kernpy.core.exporter', 'Exporter.append_row'), ('kernpy.core.export
 
 OBLIGATIONS = [
     Ob(id='C14.a', fn=ob_a, title='frame lemma: no read-only operation changes the document, module-level state or its arguments; result == fresh copy',
-       shard_of=lambda d, op: op, shards={'quick': 8, 'thorough': 8}, budget_s={'quick': 150, 'thorough': 600},
+       shard_of=lambda d, op: op, shards={'quick': 16, 'thorough': 16}, budget_s={'quick': 170, 'thorough': 900}, native_body=True,
        witnesses=[{'d': 0, 'op': 0}], min_confirmed=150, enumerated='document, operation instance (%d instances of %d kinds, incl. calls that raise)' % (len(INST), len(OPS)),
-       bounds={'quick': '3 pool documents + 1 document with notes before the first clef x every operation instance', 'thorough': 'same'}),
+       bounds={'quick': '3 pool documents + 1 document with notes before the first clef + a long score (260 data rows; thorough 1200) x every operation instance', 'thorough': 'same'}),
     Ob(id='C14.a2', fn=ob_a2, title='frame lemma for dumps with arbitrary integer measure range (also when it raises)',
        shard_of=lambda d, a, b: d, shards={'quick': 3, 'thorough': 3}, budget_s={'quick': 150, 'thorough': 600}, opaque_numbers=True, untrace=UNTRACE,
        witnesses=[{'d': 0, 'a': 1, 'b': 2}, {'d': 1, 'a': -5, 'b': 0}], min_confirmed=15,
@@ -309,6 +308,6 @@ OBLIGATIONS = [
                         '(first and last parameter value of each kind, every encoding)' % (len(INST), len(OBS)),
                'thorough': '4 documents x all ordered pairs of the %d operation instances' % len(INST)}),
     Ob(id='C14.c', fn=ob_c, title='two imports of the same text are indistinguishable (snapshot and every operation)',
-       shard_of=lambda d, op: op, shards={'quick': 4, 'thorough': 4}, budget_s={'quick': 120, 'thorough': 600},
-       witnesses=[{'d': 0, 'op': 0}], min_confirmed=150, enumerated='document, operation instance', bounds={'quick': '3 x all instances', 'thorough': 'same'}),
+       shard_of=lambda d, op: op, shards={'quick': 8, 'thorough': 8}, budget_s={'quick': 170, 'thorough': 900}, native_body=True,
+       witnesses=[{'d': 0, 'op': 0}], min_confirmed=150, enumerated='document, operation instance', bounds={'quick': '5 documents (incl. the long score) x all instances', 'thorough': 'same'}),
 ]
